@@ -464,6 +464,104 @@ fn sampled(g: &mut Grid, seed: u64, n: usize) {
     }
 }
 
+// ---------------------------------------------------------------- provided trait methods
+/// ordered and hashed by `key` only; `tag` tells two equal-ranking values apart
+#[derive(Clone, Copy, Debug)]
+struct K {
+    key: u8,
+    tag: u8,
+}
+impl PartialEq for K {
+    fn eq(&self, o: &K) -> bool {
+        self.key == o.key
+    }
+}
+impl Eq for K {}
+impl PartialOrd for K {
+    fn partial_cmp(&self, o: &K) -> Option<Ordering> {
+        Some(self.cmp(o))
+    }
+}
+impl Ord for K {
+    fn cmp(&self, o: &K) -> Ordering {
+        self.key.cmp(&o.key)
+    }
+}
+impl Hash for K {
+    fn hash<H: Hasher>(&self, h: &mut H) {
+        self.key.hash(h)
+    }
+}
+/// The methods that `Ord`, `Hash` (and `PartialEq`, covered above) PROVIDE — max, min, clamp,
+/// hash_slice — answer through a handle what they answer on the values, including which of two
+/// equal-ranking operands is returned and whether an inverted clamp range panics.
+fn provided_methods(g: &mut Grid) {
+    let dom: Vec<K> = (0..3u8).flat_map(|k| (0..2u8).map(move |t| K { key: k, tag: t })).collect();
+    let thin = |k: &K| -> ThinArc<K, u8> { ThinArc::from_header_and_slice(*k, &[]) };
+    let catch = |f: &mut dyn FnMut() -> (u8, u8)| -> Option<(u8, u8)> { std::panic::catch_unwind(std::panic::AssertUnwindSafe(f)).ok() };
+    for a in &dom {
+        for b in &dom {
+            let case = format!("max/min of {:?} and {:?}", a, b);
+            g.case(format!("provided|maxmin|{}|{}|{}|{}", a.key, a.tag, b.key, b.tag), || case.clone());
+            let vmax = Ord::max(*a, *b);
+            let vmin = Ord::min(*a, *b);
+            let (ha, hb) = (Arc::new(*a), Arc::new(*b));
+            let hmax = Ord::max(ha.clone(), hb.clone());
+            let hmin = Ord::min(ha.clone(), hb.clone());
+            if (hmax.key, hmax.tag) != (vmax.key, vmax.tag) || (hmin.key, hmin.tag) != (vmin.key, vmin.tag) {
+                g.fail("provided-max-min:Arc", &case, format!("through Arc: max {:?} min {:?}; on the values: max {:?} min {:?}", *hmax, *hmin, vmax, vmin));
+            }
+            if !(Arc::ptr_eq(&hmax, &ha) || Arc::ptr_eq(&hmax, &hb)) || !(Arc::ptr_eq(&hmin, &ha) || Arc::ptr_eq(&hmin, &hb)) {
+                g.fail("provided-max-min-identity:Arc", &case, "max/min returned a handle that is neither operand".into());
+            }
+            let (ta, tb) = (thin(a), thin(b));
+            let tmax = Ord::max(ta.clone(), tb.clone());
+            let tmin = Ord::min(ta.clone(), tb.clone());
+            if (tmax.header.header.key, tmax.header.header.tag) != (vmax.key, vmax.tag) || (tmin.header.header.key, tmin.header.header.tag) != (vmin.key, vmin.tag) {
+                g.fail("provided-max-min:ThinArc", &case, format!("through ThinArc: max {:?} min {:?}; on the values: max {:?} min {:?}", tmax.header.header, tmin.header.header, vmax, vmin));
+            }
+            // hash_slice
+            let hv = {
+                let mut h = std::collections::hash_map::DefaultHasher::new();
+                Hash::hash_slice(&[*a, *b], &mut h);
+                h.finish()
+            };
+            let hh = {
+                let mut h = std::collections::hash_map::DefaultHasher::new();
+                Hash::hash_slice(&[ha.clone(), hb.clone()], &mut h);
+                h.finish()
+            };
+            if hv != hh {
+                g.fail("provided-hash-slice:Arc", &case, "Hash::hash_slice over handles differs from hash_slice over the values".into());
+            }
+            for c in &dom {
+                let case = format!("{:?}.clamp({:?}, {:?})", a, b, c);
+                g.case(format!("provided|clamp|{}|{}|{}", a.key, b.key, c.key), || case.clone());
+                let v = catch(&mut || {
+                    let r = Ord::clamp(*a, *b, *c);
+                    (r.key, r.tag)
+                });
+                let hc = Arc::new(*c);
+                let h = catch(&mut || {
+                    let r = Ord::clamp(ha.clone(), hb.clone(), hc.clone());
+                    (r.key, r.tag)
+                });
+                if v != h {
+                    g.fail("provided-clamp:Arc", &case, format!("through Arc: {:?}; on the values: {:?} (None = panicked)", h, v));
+                }
+                let tc = thin(c);
+                let t = catch(&mut || {
+                    let r = Ord::clamp(ta.clone(), tb.clone(), tc.clone());
+                    (r.header.header.key, r.header.header.tag)
+                });
+                if v != t {
+                    g.fail("provided-clamp:ThinArc", &case, format!("through ThinArc: {:?}; on the values: {:?} (None = panicked)", t, v));
+                }
+            }
+        }
+    }
+}
+
 pub fn run(tier: &str, seed: u64) -> Vec<Grid> {
     let thorough = tier == "thorough";
     let mut g = Grid::new("c14.values", "all ordered pairs of the value domain (headers x slices of length <=3 over 3 letters; recorded length true / +1 / 0; scalars; floats incl. NaN and -0.0; equality-only payload) x handle kind x same/distinct allocation; every operator the handle implements");
@@ -488,6 +586,7 @@ pub fn run(tier: &str, seed: u64) -> Vec<Grid> {
     floats(&mut g);
     header_slices(&mut g, thorough);
     maps(&mut g);
+    provided_methods(&mut g);
     let mut s = Grid::new("c14.sampled", "SAMPLING (labelled, not exhaustive): VERIF_SEED-driven larger header/slice values through ThinArc; excluded from the exhaustive claim");
     s.exhaustive = false;
     sampled(&mut s, seed, if thorough { 20000 } else { 2000 });
